@@ -43,6 +43,7 @@ claim("C03", "DESIGN.md §5 C03",
       "Lean 4 theorems (penalty non-negative, zero iff all linear and quadratic constraints hold; feasibility QUBO with default rho=1 equals the penalty) + correspondence and exhaustive zero-set check",
       "Proved for every program data and every binary x: the feasibility-mode QUBO with the default (and any positive) penalty is >= 0 and = 0 exactly when x satisfies all linear rows and the quadratic constraint; "
       "hence minimum 0 iff the constrained program is feasible and every zero-energy assignment is a solution. R is entrywise non-negative by construction (counts). "
+      "The package's own feasibility tester (test_feasibility.py) is modelled too: it reports no violation exactly on the feasible set, i.e. exactly where the feasibility QUBO is zero (testFeasibility_clean_iff_qubo_zero), and is compared with the real function on feasible and infeasible vectors of every instance. "
       "Re-checked on the real code over all 2^n vectors of generated instances of the three formulations.",
       "Exact arithmetic; instance generator bounds what the correspondence sees.")
 claim("C04", "DESIGN.md §5 C04",
